@@ -228,6 +228,14 @@ var reParam = regexp.MustCompile(`(^|[^)\w])#([0-9]+)(\.)?`)
 func SubstParams(s string, subst []string) string { return substParams(s, subst, "") }
 
 func substParams(s string, subst []string, unknown string) string {
+	out := substParams0(s, subst, unknown)
+	if strings.Contains(out, "mk{") {
+		out = term.ReduceLiteralFields(out)
+	}
+	return out
+}
+
+func substParams0(s string, subst []string, unknown string) string {
 	return reParam.ReplaceAllStringFunc(s, func(m string) string {
 		sm := reParam.FindStringSubmatch(m)
 		var i int
@@ -412,13 +420,135 @@ func (c *Checker) helperImplies(call *ssa.Call, isErr bool, want bool, atoms []A
 					if isC || DefinitelyNonNil(res, 0) {
 						continue
 					}
-					// a computed error: may be nil — must also be covered
+					// a computed error: may be nil — must also be covered. When the helper hands back the very
+					// error value an atom speaks about (`return k.bank.Send(...)`), the helper returning nil IS
+					// that value being nil.
+					rt := hc.Res.Of(res).String()
+					if len(hc.Subst) > 0 {
+						rt = substParams(rt, hc.Subst, "#callee")
+					}
+					direct := false
+					for _, a := range atoms {
+						if a.matches(Pred{Kind: "eq", A: rt, B: "nil"}, true) {
+							direct = true
+						}
+					}
+					if direct {
+						n++
+						continue
+					}
 				}
 			} else {
 				if isNil {
 					continue
 				}
 			}
+		}
+		n++
+		if ok, _ := hc.MustPass(b, atoms); !ok {
+			return false
+		}
+	}
+	return n > 0
+}
+
+// resultTest recognises a condition on one result of a module helper call: the condition is true exactly when that
+// result is empty/nil == emptyPol.
+func (c *Checker) resultTest(v ssa.Value) (call *ssa.Call, idx int, emptyPol bool, ok bool) {
+	v, pol := stripNot(v)
+	var x ssa.Value
+	switch t := v.(type) {
+	case *ssa.Call:
+		if f := t.Call.StaticCallee(); f != nil && f.Name() == "Empty" && len(t.Call.Args) == 1 {
+			x, emptyPol = t.Call.Args[0], pol
+		}
+	case *ssa.BinOp:
+		other := t.Y
+		cand := t.X
+		if _, isC := t.X.(*ssa.Const); isC {
+			other, cand = t.X, t.Y
+		}
+		k, isC := other.(*ssa.Const)
+		if !isC {
+			return nil, 0, false, false
+		}
+		if lc, isLen := cand.(*ssa.Call); isLen {
+			if bi, okb := lc.Call.Value.(*ssa.Builtin); okb && bi.Name() == "len" && len(lc.Call.Args) == 1 && k.Value != nil && k.Value.Kind() == constant.Int && k.Int64() == 0 {
+				switch t.Op {
+				case token.EQL:
+					x, emptyPol = lc.Call.Args[0], pol
+				case token.NEQ, token.GTR:
+					x, emptyPol = lc.Call.Args[0], !pol
+				}
+			}
+		} else if k.Value == nil && (t.Op == token.EQL || t.Op == token.NEQ) {
+			x, emptyPol = cand, pol
+			if t.Op == token.NEQ {
+				emptyPol = !pol
+			}
+		}
+	}
+	if x == nil {
+		return nil, 0, false, false
+	}
+	switch r := x.(type) {
+	case *ssa.Extract:
+		if cl, isCall := r.Tuple.(*ssa.Call); isCall {
+			call, idx = cl, r.Index
+		}
+	case *ssa.Call:
+		call, idx = r, 0
+	}
+	if call == nil || call.Call.IsInvoke() {
+		return nil, 0, false, false
+	}
+	h := call.Call.StaticCallee()
+	if h == nil || len(h.Blocks) == 0 || h.Pkg == nil || !prog.InModule(h.Pkg.Pkg.Path()) {
+		return nil, 0, false, false
+	}
+	// an error result is the business of helperCall
+	if call.Type().String() == "error" {
+		return nil, 0, false, false
+	}
+	if tup, isTup := call.Type().(*types.Tuple); isTup && idx < tup.Len() && tup.At(idx).Type().String() == "error" {
+		return nil, 0, false, false
+	}
+	return call, idx, emptyPol, true
+}
+
+// resultImplies: the helper handing back an empty (wantEmpty) / non-empty result idx implies one of the atoms: every
+// return site whose value for that result is compatible with the outcome establishes it.
+func (c *Checker) resultImplies(call *ssa.Call, idx int, wantEmpty bool, atoms []Atom) bool {
+	if c.Depth >= MaxHelperDepth {
+		return false
+	}
+	h := call.Call.StaticCallee()
+	subst := make([]string, len(h.Params))
+	for i, a := range call.Call.Args {
+		if i < len(subst) {
+			t := c.Res.Of(a).String()
+			if len(c.Subst) > 0 {
+				t = substParams(t, c.Subst, "")
+			}
+			subst[i] = t
+		}
+	}
+	hc := &Checker{P: c.P, Fn: h, Res: term.NewResolver(c.P, c.Res.Mods, h), Subst: subst, Depth: c.Depth + 1}
+	n := 0
+	for _, b := range h.Blocks {
+		ret, ok := b.Instrs[len(b.Instrs)-1].(*ssa.Return)
+		if !ok || idx >= len(ret.Results) {
+			continue
+		}
+		rv := ret.Results[idx]
+		k, isC := rv.(*ssa.Const)
+		isEmpty := isC && k.Value == nil
+		if wantEmpty {
+			if !isEmpty && DefinitelyNonNil(rv, 0) {
+				continue
+			}
+		} else if isEmpty {
+			continue
 		}
 		n++
 		if ok, _ := hc.MustPass(b, atoms); !ok {
@@ -450,6 +580,16 @@ func (c *Checker) directCut(atoms []Atom) map[cfgx.Edge]bool {
 				cut[cfgx.Edge{From: b, To: b.Succs[0]}] = true
 			}
 			if c.helperImplies(call, isErr, !hpol, atoms) {
+				cut[cfgx.Edge{From: b, To: b.Succs[1]}] = true
+			}
+		}
+		// a test of what a helper handed back (x == nil, x.Empty(), len(x) == 0 with x a result of the helper): only
+		// the helper's return sites whose value is compatible with the outcome can have been taken
+		if call, idx, emptyPol, ok := c.resultTest(iff.Cond); ok && len(atoms) > 0 {
+			if c.resultImplies(call, idx, emptyPol, atoms) {
+				cut[cfgx.Edge{From: b, To: b.Succs[0]}] = true
+			}
+			if c.resultImplies(call, idx, !emptyPol, atoms) {
 				cut[cfgx.Edge{From: b, To: b.Succs[1]}] = true
 			}
 		}
